@@ -308,6 +308,7 @@ def run_snr(key):
 
 
 def subchecks(tier, seed):
+    seeds_ = [seed] if tier != 'thorough' else [seed] + [seed * 1000 + v for v in range(1, 6)]
     thorough = tier == 'thorough'
     subs = []
 
@@ -319,36 +320,40 @@ def subchecks(tier, seed):
                     bound=dict(estimates='{-1,0,1}^8', references=[list(r) for r in REFS])))
 
     def gen_cases():
-        for lead in ((), (2,), (2, 3)):
-            for T in (8, 64, 4096):
-                for mix in (0.0, 0.1, 0.5, 0.9, 1.0):
-                    yield (lead, T, mix, seed)
+        for seed in seeds_:
+            for lead in ((), (2,), (2, 3)):
+                for T in (8, 64, 4096):
+                    for mix in (0.0, 0.1, 0.5, 0.9, 1.0):
+                        yield (lead, T, mix, seed)
     subs.append(Sub('si_sdr_generic', ('lead', 'T', 'mix', 'seed'), gen_cases, run_sisdr_generic))
 
     def out_cases():
-        for Ks in (1, 2, 3, 4):
-            for Kt in (1, 2, 3, 4, 5):
-                if Kt < Ks:
-                    continue
-                for kind in ('integer', 'generic', 'clean'):
-                    for T in (8, 64) + ((4096,) if thorough else ()):
-                        for v in range(3 if not thorough else 6):
-                            yield (Ks, Kt, kind, T, seed * 100 + v)
+        for seed in seeds_:
+            for Ks in (1, 2, 3, 4):
+                for Kt in (1, 2, 3, 4, 5):
+                    if Kt < Ks:
+                        continue
+                    for kind in ('integer', 'generic', 'clean'):
+                        for T in (8, 64) + ((4096,) if thorough else ()):
+                            for v in range(3 if not thorough else 6):
+                                yield (Ks, Kt, kind, T, seed * 100 + v)
     subs.append(Sub('output_sxr', ('Ks', 'Kt', 'kind', 'T', 'seed'), out_cases, run_output_sxr,
                     require_flags=('non_identity_selection',)))
 
     def in_cases():
-        for K in (1, 2, 3, 4):
-            for D in (1, 2, 3, 5):
-                for kind in ('integer', 'generic', 'clean'):
-                    for T in (8, 64):
-                        yield (K, D, kind, T, seed)
+        for seed in seeds_:
+            for K in (1, 2, 3, 4):
+                for D in (1, 2, 3, 5):
+                    for kind in ('integer', 'generic', 'clean'):
+                        for T in (8, 64):
+                            yield (K, D, kind, T, seed)
     subs.append(Sub('input_sxr', ('K', 'D', 'kind', 'T', 'seed'), in_cases, run_input_sxr))
 
     def snr_cases():
-        for shape in ((64,), (3, 64), (2, 3, 16)):
-            for target in (-20.0, 0.0, 7.5, 40.0):
-                for axis in (None, -1):
-                    yield (shape, target, axis, seed)
+        for seed in seeds_:
+            for shape in ((64,), (3, 64), (2, 3, 16)):
+                for target in (-20.0, 0.0, 7.5, 40.0):
+                    for axis in (None, -1):
+                        yield (shape, target, axis, seed)
     subs.append(Sub('set_get_snr', ('shape', 'target', 'axis', 'seed'), snr_cases, run_snr))
     return subs
